@@ -1,0 +1,72 @@
+//go:build verif
+
+package net
+
+// Verification seam (build tag verif): the only two places where this package
+// touches the operating system's sockets — Client.dial and TCPServer.Listen /
+// Serve — can be redirected to a simulated network. Everything above the
+// socket (connection pool, deadlines, frame codec, compression wrappers, worker
+// pool, handler dispatch) stays the real code. Unless SimDial / SimListen are
+// set the behaviour is the stock one.
+
+import (
+	"context"
+	"net"
+	"time"
+)
+
+const simEnabled = true
+
+type simListener interface {
+	Accept() (net.Conn, error)
+	Close() error
+}
+
+// SimListener is what SimListen returns.
+type SimListener = simListener
+
+var (
+	// SimDial, when set, replaces the TCP dial of Client.
+	SimDial func(ctx context.Context, addr string) (net.Conn, error)
+	// SimListen, when set, replaces the TCP listener of TCPServer.
+	SimListen func(addr string) (SimListener, error)
+)
+
+func dialConn(ctx context.Context, d *net.Dialer, addr string) (net.Conn, error) {
+	if SimDial != nil {
+		return SimDial(ctx, addr)
+	}
+	return d.DialContext(ctx, "tcp", addr)
+}
+
+func simListen(addr string) (simListener, bool, error) {
+	if SimListen == nil {
+		return nil, false, nil
+	}
+	l, err := SimListen(addr)
+	return l, true, err
+}
+
+// serveSim is Serve for a simulated listener: one accept loop feeding the real worker pool.
+func (s *TCPServer) serveSim() error {
+	s.wp = NewWorkerPool(s.serveConn)
+	s.wp.SetNumShards(2)
+	s.wp.SetIdleWorkerLifetime(5 * time.Second)
+	s.wp.Start()
+	defer s.wp.Stop()
+	for {
+		conn, err := s.simListener.Accept()
+		if err != nil {
+			break
+		}
+		s.acceptedConns.Add(1)
+		if err := s.wp.AddTask(conn); err != nil {
+			s.acceptedConns.Add(-1)
+			_ = conn.Close()
+		}
+	}
+	if s.activeConnections.Load() == 0 {
+		return nil
+	}
+	return s.awaitConnections()
+}
